@@ -8,7 +8,7 @@ CONSTANTS
   Shapes <- mc_Shapes
   Samplers <- mc_Samplers
   Profiles <- mc_Profiles
-  IngestPaths = {"msgp", "map"}
+  IngestPaths = {"msgp", "umsg", "map"}
   Crate <- mc_Crate
   Variants = {1}
   DecideHows = {"timer", "eject"}
